@@ -22,6 +22,8 @@ type RunOpts struct {
 	OnlyKey       string
 	// Extra holds per-property additions to the evidence coverage (the sensitivity self-test of the thorough tier).
 	Extra map[string]map[string]any
+	// Start is when the run began (the self-test of the thorough tier runs before the rules); zero = now.
+	Start time.Time
 }
 
 type buildCtx struct {
@@ -50,6 +52,9 @@ func RunProperties(props []string, o RunOpts) (bad []string) {
 		runs[id] = &propRun{ruleStat: map[string][2]int{}, stats: map[string]int{}}
 	}
 	t0 := time.Now()
+	if !o.Start.IsZero() {
+		t0 = o.Start
+	}
 	var loadErr error
 	for _, bc := range ctxs {
 		p, err := core.Load(core.LoadConfig{Dir: o.Repo, Env: bc.Env})
